@@ -364,6 +364,16 @@ def run_case(case):
         if not qv:
             qv.append(msg); info['oracle'].append(('queue', msg))
 
+    def check_skipped(upto=None):
+        """C05/C06: a chosen event that is passed over must have left its locus by its turn"""
+        tr = st.get('tranche') or []
+        while tr:
+            (l, e, fk) = tr.pop(0)
+            if upto is not None and (lkey(l), e, fk) == upto:
+                return
+            if is_member(l, e) and not any(o[0] == 'sync' for o in info['oracle']):
+                info['oracle'].append(('sync', f"event {fk} chosen for {e} was passed over although {e} was still in its locus at its turn"))
+
     def wrap(ef, posted_time=None, locus=None, cell=None):
         if getattr(ef, '_wrapped', False) and posted_time is None and locus is None:
             return ef
@@ -373,6 +383,8 @@ def run_case(case):
             cur.update(h=t, clock=d.currentSimulationTime(), ef=orig, posted=posted_time is not None,
                        own=posted_time if posted_time is not None else t, locus=locus,
                        member=is_member(locus, e) if locus is not None else True)
+            if locus is not None and case['dyn'] == 'syn' and st.get('tranche') is not None:
+                check_skipped(upto=(lkey(locus), e, fkey(orig)))
             if cell is not None:
                 i = cell.get('id')
                 if i not in ref:
@@ -430,7 +442,9 @@ def run_case(case):
             per = [(l, p, getattr(f, '_orig', f), nm, list(l)) for (l, p, f, nm) in self.perElementEventDistribution(t)]
             fix = [(l, p, getattr(f, '_orig', f), nm, len(l)) for (l, p, f, nm) in self.fixedRateEventDistribution(t)]
             mark = len(sr.recent); imark = len(sr.lines)
+            check_skipped()
             evs = super().allEventsInTimestep(t)
+            st['tranche'] = [(l, e, fkey(f)) for (l, e, f, nm) in evs]
             rs = sr.recent[mark:]
             want = []; k = 0; ok = True
             for (l, p, f, nm, els) in per:
@@ -572,6 +586,7 @@ def run_case(case):
         if case['dyn'] == 'sto':
             late = [(tt, j) for j, (tt, _) in ref.items() if tt < md[Dynamics.TIME]]
             if late: qviol(f"run ended at {md[Dynamics.TIME]} with event id {min(late)[1]} still pending for {min(late)[0]}")
+        if case['dyn'] == 'syn': check_skipped()
         for f in case.get('finals', ()):
             r = f(d, st['ex'], res, md, case)
             if r: info['oracle'].append((f.__name__.replace('final_', ''), r))
